@@ -40,6 +40,9 @@ type Candidate struct {
 	// Hist: earlier requests of the same executor (kept in memory for the first
 	// candidate of a group only; written to the replay file when needed).
 	Hist [][]byte `json:"-"`
+	// Binary / Env: the executor that observed it when that is not this binary (the race-detector build)
+	Binary string   `json:"-"`
+	Env    []string `json:"-"`
 }
 
 // Finding is one entry of known_findings.json.
